@@ -99,7 +99,8 @@ type OpSpec struct {
 
 // Expect carries what the generator knows about a program (C16 model).
 type Expect struct {
-	Markers map[string]int `json:"markers,omitempty"` // marker -> expected occurrences in the output
+	Markers map[string]int    `json:"markers,omitempty"` // marker -> expected occurrences in the output
+	Kinds   map[string]string `json:"kinds,omitempty"`   // marker -> placement kind (names the violation signature)
 }
 
 // DataSpec describes the data value passed to an operation; the value is built
